@@ -134,6 +134,9 @@ def main(argv):
         plan = prop.plan(tier, seed)
         if only_gen:
             plan = [c for c in plan if c.get("gen") == only_gen]
+    if not plan_file and not getattr(prop, "KEEP_ORDER", False):
+        import random
+        random.Random(1234567).shuffle(plan)  # same permutation in every worker: balances shards across generators
     mine = [c for i, c in enumerate(plan) if i % nshards == shard]
     ctx = Ctx(pid)
     case_timeout = getattr(prop, "CASE_TIMEOUT", {"quick": 60, "thorough": 120}).get(tier, 60)
